@@ -96,9 +96,11 @@ def credit_consistency(row, out):
     if any(n == "?" for (k, n) in m):
         probs.append("metric event with a non-constant count")
     if marked != left_white:
-        probs.append("credited marked=%d but %d object(s) left White" % (marked, left_white))
+        probs.append("[credits-%s] credited marked=%d but %d object(s) left White" % (
+            "over" if marked > left_white else "under", marked, left_white))
     if untraced != regray:
-        probs.append("credited untraced=%d but %d Black->Gray re-queue(s)" % (untraced, regray))
+        probs.append("[credits-%s] credited untraced=%d but %d Black->Gray re-queue(s)" % (
+            "under" if untraced > regray else "over", untraced, regray))
     return probs
 
 
@@ -420,17 +422,25 @@ def spec_sweep_one(row):
             continue  # unreachable by S2 (checked on the automaton); informational
         want_drop = (col in ("W", "WW")) and live == 1
         want_free = col == "W"
-        if bool(dropped) != want_drop or len(dropped) > 1:
+        if len(dropped) > int(want_drop):
             probs.append("value destructed %d time(s), specification says %s" % (len(dropped), int(want_drop)))
+        elif len(dropped) < int(want_drop):
+            probs.append("[reclaim] condemned value not destructed by the sweep (specification says it is)")
         if out.kind == "return":
-            if bool(freed) != want_free or len(freed) > 1:
+            if len(freed) > int(want_free):
                 probs.append("block released %d time(s), specification says %s" % (len(freed), int(want_free)))
+            elif len(freed) < int(want_free):
+                probs.append("[reclaim] condemned block not released by the sweep (specification says it is)")
             exp = []
             if want_drop:
                 exp.append(("dropped", 1))
             exp.append(("freed", 1) if want_free else ("remembered", 1))
-            if m != sorted(exp):
-                probs.append("credits %s, specification says %s" % (m, sorted(exp)))
+            over = [c for c in m if m.count(c) > sorted(exp).count(c)]
+            under = [c for c in exp if m.count(c) < exp.count(c)]
+            if over:
+                probs.append("[credits-over] credits %s, specification says %s: work credited that was not done" % (m, sorted(exp)))
+            if under:
+                probs.append("[credits-under] credits %s, specification says %s: work done but not credited/counted" % (m, sorted(exp)))
         else:
             if out.kind != "unwind" or not dropped:
                 probs.append("exit kind %s" % out.kind)
@@ -439,7 +449,11 @@ def spec_sweep_one(row):
         # kept objects are reset to White / shells are marked not-live
         if col in ("WW", "B"):
             if post["colour"] != "W":
-                probs.append("survivor left %s: the next cycle cannot condemn it" % post["colour"])
+                if post["live"] == 0:
+                    probs.append("[reclaim] shell left %s after the sweep: no later cycle can release it" % post["colour"])
+                else:
+                    probs.append("survivor left %s: the next cycle treats it as already marked and never traces its "
+                                 "children" % post["colour"])
             if col == "WW" and post["live"] != 0:
                 probs.append("weakly kept object still flagged live after its value was (or had been) destructed")
             if col == "B" and post["live"] != live:
